@@ -186,6 +186,7 @@ def check(repo, tier="quick"):
     from .. import quantmatrix
 
     quantmatrix.rule(repo, res, "C05.e")
+    rule_prefix(repo, res, gens)
     lints.rule(repo, res, "C05.e", [n.split("vc2_conformance.", 1)[-1] for n in sorted(repo.modules) if n.startswith("vc2_conformance.test_cases")])
     res.floor("C05.e", 15)
     res.floor("C05.a", 9)
@@ -360,3 +361,29 @@ def rule_d(repo, res, gens):
         d = sorted(set(x for x in lits if lits.count(x) > 1))
         # the same literal used at two yield sites is a duplicate only if both can be reached in one run; sites in different branches of one if are exclusive
         res.check(not d, "C05.d", "%s:literal-subcase-names-distinct" % g, "%s:%s" % (m.rel, g), "literal sub-case name(s) %s are used by more than one TestCase(...) of %s: two test cases of one run would share a file name" % (d, g), by="%d literal, %d computed sub-case names" % (len(lits), dyn))
+
+
+def rule_prefix(repo, res, gens):
+    """slice_prefix_bytes: what every lossy slice gives up is the minimum coefficient space over all slices"""
+    from ..core import pfind, pmatch
+
+    if "slice_prefix_bytes" not in gens:
+        return
+    m, f = gens["slice_prefix_bytes"]
+    where = "%s:slice_prefix_bytes" % m.rel
+    ok = False
+    found = "assignment of the prefix size on the lossy arm not found"
+    for a in ast.walk(f):
+        if isinstance(a, ast.Assign) and dotted(a.targets[0]) == "slice_prefix_bytes" and isinstance(a.value, ast.Call) and dotted(a.value.func) in ("min", "max", "sum") and a.value.args and isinstance(a.value.args[0], ast.GeneratorExp):
+            g = a.value.args[0]
+            found = "%s(...) over %s" % (dotted(a.value.func), short(g.generators[0].iter, 50))
+            if dotted(a.value.func) != "min" or len(g.generators) != 1 or g.generators[0].ifs:
+                continue
+            it = g.generators[0]
+            names = [dotted(x) for x in it.target.elts] if isinstance(it.target, ast.Tuple) else []
+            if len(names) != 4 or not (isinstance(it.iter, ast.Call) and dotted(it.iter.func) == "iter_slices_in_sequence" and [dotted(x) for x in it.iter.args] == ["codec_features", "sequence"]):
+                continue
+            stv, slv = names[0], names[3]
+            want = "(%(s)s['slice_y_length'] + %(s)s['slice_c1_length'] + %(s)s['slice_c2_length']) * %(t)s['slice_size_scaler']" % {"s": slv, "t": stv}
+            ok = norm(g.elt) == norm(ast.parse(want).body[0].value)
+    res.check(ok, "C05.e", "slice_prefix_bytes:minimum-over-all-slices", where, "on the lossy arm the number of prefix bytes must be min(...) over every slice of the sequence of (slice_y_length + slice_c1_length + slice_c2_length) * slice_size_scaler (found %s): each slice then gives up that many coefficient bytes, and any larger number drives the smaller slices' length field negative" % found, by="min over iter_slices_in_sequence(codec_features, sequence) of the coefficient bytes")
